@@ -60,6 +60,13 @@ def random_dyadic_ensembles(count, seed):
             if not np.any(v):
                 v[0] = 1.0
             vs.append(v if t % 2 == 0 else v.reshape(-1, 1))
+        # storage variety: a real (float) or integer first array, density-matrix form
+        if t % 6 == 3 and np.any(vs[0].real):
+            vs[0] = np.ascontiguousarray(vs[0].real, dtype=float)
+        elif t % 6 == 5 and np.any(np.rint(4 * vs[0].real)):
+            vs[0] = np.rint(4 * vs[0].real).astype(np.int64)
+        if t % 4 == 1:
+            vs = [np.outer(np.asarray(v).reshape(-1), np.asarray(v).reshape(-1).conj()) for v in vs]
         w = [2.0 ** -(k + 1) for k in range(n)]
         w[-1] = 2.0 ** -(n - 1)
         rng.shuffle(w)
@@ -80,11 +87,12 @@ def instances(tier):
     fam.append(("3 qubit kets, first stored as a float array, the others complex, prior (1/4,1/2,1/4)",
                 [np.array([1.0, 0.5]), np.array([0.5, 0.5j]), np.array([0.25 + 0.5j, 1.0])], [0.25, 0.5, 0.25]))
     fam.append(("2 qubit kets, first stored as an integer array, second complex, uniform", [np.array([1, 1]), np.array([0.5, 0.25 + 0.5j])], None))
+    fam.append(("3 complex qubit kets, prior (1/2,0,1/2)", [np.array([1, 0j]), np.array([0.5, 0.5]), np.array([0.5, 0.5j])], [0.5, 0.0, 0.5]))
     fam.append(("4 real qubit kets, uniform", [np.array([1.0, 0]), np.array([0, 1.0]), np.array([0.5, 0.5]), np.array([0.5, -0.5])], None))
     if T:
         fam.append(("5 complex qubit kets", [np.array([1, 0j]), np.array([0, 1j]), np.array([0.5, 0.5j]), np.array([0.5, -0.5]), np.array([0.25, 0.75j])], [0.125, 0.125, 0.25, 0.25, 0.25]))
         fam.append(("3 complex d=4 kets", [np.array([1, 0, 0.5j, 0]), np.array([0.5, 0.5, 0, 0.5j]), np.array([0, 0.25, 0.25j, 1])], [0.5, 0.25, 0.25]))
-        fam += random_dyadic_ensembles(12, 10)
+        fam += random_dyadic_ensembles(60, 10)
     return fam
 
 
